@@ -89,6 +89,7 @@ type CfgSpec struct {
 	Usage      string      `json:"usage"`
 	Env        [][2]string `json:"env"`
 	Cols       int         `json:"cols"`
+	Tty        bool        `json:"tty"`
 	SubOpt     bool        `json:"subopt"`
 	ShortDesc  string      `json:"shortdesc"`
 	LongDesc   string      `json:"longdesc"`
@@ -528,6 +529,8 @@ type ScenarioResult struct {
 	Ops   []OpResult `json:"ops"`
 	Fatal string     `json:"fatal,omitempty"`
 	SetupPanic string `json:"setup_panic,omitempty"`
+	Nondet     string `json:"nondet,omitempty"`
+	Other      *ScenarioResult `json:"other,omitempty"`
 }
 
 func renderErr(err error) string {
